@@ -779,3 +779,171 @@ Proof.
     rewrite (IH t' o' c2 fuel eq_refl Hat3 eq_refl HE3 Hpts ltac:(cbn in Hf; lia)).
     rewrite roots_cons. reflexivity.
 Qed.
+
+Lemma length_le_forest_size codes : forall ts, N.of_nat (length ts) <= forest_size codes ts.
+Proof.
+  unfold forest_size. induction ts as [|t ts IH]; [cbn; lia|]. cbn [length map sumN fold_right].
+  pose proof (tree_size_pos codes t). fold (sumN (map (tree_size codes) ts)). lia.
+Qed.
+
+(* Theorem 5, on the bytes of a sibling list: the cursor about to read [t], whose following siblings
+   are [ts], and after them the end of the input or a null entry *)
+Lemma sibling_correct dbg e tbl codes t ts after off d E c :
+  addr_size_ok e ->
+  all_covered tbl codes (t :: ts) -> forest_ok codes e (t :: ts) -> sibs_fit codes off (t :: ts) ->
+  (after = [] \/ exists more, after = x00 :: more) ->
+  c_raw c = mkRaw (on_list (enc_tree codes (be e)) (tree_size codes) off (t :: ts) ++ after) E d ->
+  E = off + nlen (on_list (enc_tree codes (be e)) (tree_size codes) off (t :: ts) ++ after) -> E < two64 ->
+  depth_ok d (on_list (enc_tree codes (be e)) (tree_size codes) off (t :: ts) ++ after) ->
+  exists c1, next_entry dbg e tbl c = Ok (SOk true c1) /\ c_cur c1 = root_die codes off d t /\
+             siblings_all (cursor_fuel c1) dbg e tbl c1 = Ok (roots codes (off + tree_size codes t) d ts, None).
+Proof.
+  intros He H1 H2 H3 Hafter Hraw HE HE64 Hd.
+  pose proof (placed_ok_all e tbl codes off (t :: ts) H1 H2 H3) as Hp.
+  set (m := match after with [] => [] | _ => [null_ev (off + forest_size codes (t :: ts)) d] end).
+  set (rest := tl after).
+  assert (Hm : list_end d m rest).
+  { unfold m, rest. destruct Hafter as [->|(more & ->)]; [left; split; reflexivity|right; eexists; reflexivity]. }
+  assert (Hbytes : on_list (enc_tree codes (be e)) (tree_size codes) off (t :: ts) ++ after =
+                   xbytes (evs_list codes (be e) d off (t :: ts) ++ m) ++ rest).
+  { rewrite xbytes_app, evs_list_bytes, <- app_assoc. f_equal. unfold m, rest.
+    destruct Hafter as [->|(more & ->)]; reflexivity. }
+  rewrite Hbytes in *.
+  assert (Hat : at_chain dbg e tbl E rest (c_raw c) (evs_list codes (be e) d off (t :: ts) ++ m)).
+  { rewrite Hraw. apply (at_chain_intro dbg e tbl _ off d rest E); try assumption.
+    - apply Forall_app. split; [apply evs_list_ok; assumption|].
+      unfold m. destruct after; constructor; [apply null_ev_ok|constructor].
+    - apply chain_app. destruct (evs_list_chain codes (be e) d (t :: ts) off) as [C Ee]. split; [exact C|].
+      rewrite Ee, evs_list_len. unfold m. destruct after; [exact I|].
+      cbn [chain null_ev x_die null_at d_offset d_depth]. repeat split. }
+  unfold evs_list in Hat, HE. rewrite on_list_cons in Hat, HE.
+  fold (evs_list codes (be e) d (off + tree_size codes t) ts) in Hat, HE.
+  rewrite evs_tail in Hat, HE. rewrite <- !app_assoc in Hat, HE. cbn [app] in Hat, HE.
+  destruct (at_chain_step _ _ _ _ _ _ _ _ Hat) as (_ & Hat1 & _). cbn [head_ev x_post] in Hat1.
+  eexists. split; [apply (next_entry_chain _ _ _ _ _ _ _ _ Hat)|]. cbn [head_ev x_die x_post c_cur].
+  split; [reflexivity|].
+  apply (siblings_iter dbg e tbl codes E rest d m Hm ts t off); try assumption; try reflexivity.
+  - rewrite xbytes_cons in HE. cbn [head_ev x_bytes] in HE. rewrite <- app_assoc, nlen_app, head_bytes_len in HE.
+    pose proof (kids_off_ge codes off t). lia.
+  - unfold cursor_fuel. cbn [c_raw r_in]. rewrite app_length.
+    pose proof (length_le_forest_size codes ts) as L.
+    rewrite <- (evs_list_len codes (be e) d ts (off + tree_size codes t)) in L. unfold nlen in L.
+    rewrite !xbytes_app, !app_length. lia.
+Qed.
+
+(* ------------------------------------------------------------------ *)
+(** * Theorem 6a: the tree iterator rebuilds the forest *)
+
+Definition inert (D : Z) (d : die) : Prop :=
+  ((d_depth d < D)%Z /\ (d_depth d + 1 = D)%Z /\ d_children d = true) \/ ((D <= d_depth d)%Z /\ d_children d = false).
+
+(* EntriesTree::next(D) when the next event has depth D and the current entry does not jump *)
+Lemma tree_next_read dbg e tbl E rest D ts x l fuel :
+  at_chain dbg e tbl E rest (tr_raw ts) (x :: l) -> r_depth (tr_raw ts) = D -> inert D (tr_entry ts) ->
+  (1 <= fuel)%nat ->
+  tree_next fuel dbg e tbl D ts =
+  Ok (TOk (negb (is_null (x_die x))) (mkTree (tr_root ts) (mkRaw (xbytes l ++ rest) E (x_post x)) (x_die x))).
+Proof.
+  intros Hat HD Hin Hf. destruct (at_chain_step _ _ _ _ _ _ _ _ Hat) as (Hr & _ & _ & Hdd & (b & r0 & Eb)).
+  unfold tree_next. destruct Hin as [(H1 & H2 & H3)|(H1 & H3)].
+  - replace (d_depth (tr_entry ts) <? D)%Z with true by lia.
+    replace (d_depth (tr_entry ts) + 1 =? D)%Z with true by lia. rewrite andb_false_r, H3. cbn [negb].
+    unfold raw_is_empty. rewrite Eb. cbn [is_nil]. rewrite Hr. reflexivity.
+  - replace (d_depth (tr_entry ts) <? D)%Z with false by lia.
+    destruct fuel as [|fuel]; [lia|]. cbn [tree_next_loop]. unfold sibling_jump. rewrite H3. cbn [bind].
+    unfold raw_is_empty. rewrite Eb. cbn [is_nil]. rewrite Hr.
+    replace (d_depth (x_die x) =? D)%Z with true by lia. reflexivity.
+Qed.
+
+Definition kid_trees (codes : coding) (D : Z) (off : N) (ks : list tree) : list dtree :=
+  on_list (fun o k => [dtree_of codes D o k]) (tree_size codes) off ks.
+
+Lemma dtree_of_unfold codes D off t :
+  dtree_of codes D off t = DNode (root_die codes off D t) (kid_trees codes (D + 1) (kids_off codes off t) (t_kids t)).
+Proof. destruct t. reflexivity. Qed.
+
+Definition walk_claim (dbg : bool) (e : enc) (tbl : abbrevs) (codes : coding) (E : N) (rest : list byte) (k : tree)
+  : Prop :=
+  forall D off l2 ts fuel,
+    tr_entry ts = root_die codes off D k ->
+    at_chain dbg e tbl E rest (tr_raw ts) (tail_evs codes (be e) D off k ++ l2) ->
+    r_depth (tr_raw ts) = post_depth D k ->
+    Forall (placed_ok e tbl codes) (placed codes off k) ->
+    (length (forest_nodes (t_kids k)) < fuel)%nat ->
+    walk_children fuel dbg e tbl (D + 1) ts =
+    Ok (kid_trees codes (D + 1) (kids_off codes off k) (t_kids k), None,
+        if has_children k
+        then mkTree (tr_root ts) (mkRaw (xbytes l2 ++ rest) E D) (null_at (off + tree_size codes k - 1) (D + 1))
+        else ts).
+
+Lemma walk_list dbg e tbl codes E rest : forall ks D off' oN l2 ts0 fuel,
+  Forall (walk_claim dbg e tbl codes E rest) ks ->
+  at_chain dbg e tbl E rest (tr_raw ts0) (evs_list codes (be e) D off' ks ++ null_ev oN D :: l2) ->
+  r_depth (tr_raw ts0) = D -> inert D (tr_entry ts0) ->
+  Forall (placed_ok e tbl codes) (on_list (placed codes) (tree_size codes) off' ks) ->
+  (length (forest_nodes ks) < fuel)%nat ->
+  walk_children fuel dbg e tbl D ts0 =
+  Ok (kid_trees codes D off' ks, None,
+      mkTree (tr_root ts0) (mkRaw (xbytes l2 ++ rest) E (D - 1)) (null_at oN D)).
+Proof.
+  induction ks as [|k ks IH]; intros D off' oN l2 ts0 fuel Hcl Hat HD Hin Hp Hf;
+    (destruct fuel as [|fuel]; [lia|]); cbn [walk_children].
+  - cbn [evs_list on_list app] in Hat.
+    rewrite (tree_next_read dbg e tbl E rest D ts0 _ _ (tree_fuel ts0) Hat HD Hin ltac:(unfold tree_fuel; lia)).
+    cbn [bind null_ev x_die x_post null_at is_null d_tag N.eqb negb]. reflexivity.
+  - apply Forall_cons_iff in Hcl. destruct Hcl as [Hk Hks].
+    rewrite on_list_cons in Hp. apply Forall_app in Hp. destruct Hp as [Hpk Hpks].
+    assert (Hn : node_ok codes e k).
+    { rewrite placed_unfold in Hpk. inversion Hpk as [|? ? (_ & Hn & _) _]. exact Hn. }
+    unfold evs_list in Hat. rewrite on_list_cons in Hat.
+    fold (evs_list codes (be e) D (off' + tree_size codes k) ks) in Hat.
+    rewrite evs_tail in Hat. rewrite <- !app_assoc in Hat. cbn [app] in Hat.
+    set (l3 := evs_list codes (be e) D (off' + tree_size codes k) ks ++ null_ev oN D :: l2) in *.
+    rewrite (tree_next_read dbg e tbl E rest D ts0 _ _ (tree_fuel ts0) Hat HD Hin ltac:(unfold tree_fuel; lia)).
+    cbn [bind head_ev x_die x_post]. rewrite (root_die_not_null codes e off' D k Hn). cbn [negb tr_entry].
+    destruct (at_chain_step _ _ _ _ _ _ _ _ Hat) as (_ & Hat1 & _). cbn [head_ev x_post] in Hat1.
+    set (t1 := mkTree (tr_root ts0) (mkRaw (xbytes (tail_evs codes (be e) D off' k ++ l3) ++ rest) E (post_depth D k))
+                      (root_die codes off' D k)).
+    cbn [forest_nodes flat_map] in Hf. rewrite app_length in Hf.
+    assert (Hnk : nodes k = k :: forest_nodes (t_kids k)) by (destruct k; reflexivity).
+    rewrite Hnk in Hf. cbn [length] in Hf. change (flat_map nodes ks) with (forest_nodes ks) in Hf.
+    rewrite (Hk D off' l3 t1 fuel eq_refl Hat1 eq_refl Hpk ltac:(lia)). cbn [bind].
+    (* the state after the subtree of k *)
+    pose proof (at_chain_drop _ _ _ _ _ _ _ _ Hat1) as Hat2. cbn [r_depth] in Hat2. rewrite tail_end_depth in Hat2.
+    set (t2 := if has_children k
+               then mkTree (tr_root t1) (mkRaw (xbytes l3 ++ rest) E D) (null_at (off' + tree_size codes k - 1) (D + 1))
+               else t1).
+    assert (Ht2 : tr_root t2 = tr_root ts0 /\ at_chain dbg e tbl E rest (tr_raw t2) l3 /\ r_depth (tr_raw t2) = D /\
+                  inert D (tr_entry t2)).
+    { unfold t2. destruct (has_children k) eqn:Hc.
+      - cbn [tr_root tr_raw tr_entry t1 r_depth]. split; [reflexivity|]. split; [exact Hat2|]. split; [reflexivity|].
+        right. cbn [null_at d_depth d_children]. split; [lia|reflexivity].
+      - cbn [tr_root tr_raw tr_entry t1 r_depth]. unfold tail_evs, post_depth in *. rewrite Hc in *. cbn [app] in *.
+        split; [reflexivity|]. split; [exact Hat1|]. split; [reflexivity|].
+        right. cbn [root_die d_depth d_children]. split; [lia|exact Hc]. }
+    destruct Ht2 as (Hroot & Hat3 & HD3 & Hin3).
+    rewrite (IH D (off' + tree_size codes k) oN l2 t2 fuel Hks Hat3 HD3 Hin3 Hpks ltac:(lia)).
+    rewrite Hroot. unfold kid_trees. rewrite on_list_cons. cbn [app]. rewrite dtree_of_unfold. reflexivity.
+Qed.
+
+Lemma walk_tree_claim dbg e tbl codes E rest : forall k, walk_claim dbg e tbl codes E rest k.
+Proof.
+  induction k as [tag flag items kids IH] using tree_ind'.
+  set (k := Node tag flag items kids) in *.
+  intros D off l2 ts fuel Hent Hat Hdep Hp Hf.
+  rewrite placed_unfold in Hp. apply Forall_cons_iff in Hp. destruct Hp as [_ Hpk].
+  change (t_kids k) with kids in *.
+  destruct (has_children k) eqn:Hc.
+  - unfold tail_evs in Hat. rewrite Hc in Hat. change (t_kids k) with kids in Hat.
+    rewrite <- app_assoc in Hat. cbn [app] in Hat.
+    unfold post_depth in Hdep. rewrite Hc in Hdep.
+    rewrite (walk_list dbg e tbl codes E rest kids (D + 1)%Z (kids_off codes off k) _ l2 ts fuel IH Hat Hdep);
+      [| |exact Hpk|exact Hf].
+    + replace (D + 1 - 1)%Z with D by lia. reflexivity.
+    + left. rewrite Hent. cbn [root_die d_depth d_children]. repeat split; [lia|exact Hc].
+  - apply no_children_no_kids in Hc as Hk. change (t_kids k) with kids in Hk. subst kids.
+    destruct fuel as [|fuel]; [lia|]. cbn [walk_children]. unfold tree_next.
+    rewrite Hent. cbn [root_die d_depth d_children].
+    replace (D <? D + 1)%Z with true by lia. replace (D + 1 =? D + 1)%Z with true by lia.
+    rewrite andb_false_r, Hc. cbn [negb bind]. reflexivity.
+Qed.
